@@ -179,7 +179,8 @@ class FakeSnowflakeCursor:
                 if own_transaction:
                     self._duck_conn.execute("BEGIN")
                 try:
-                    statement = expression if len(exploded) > 1 else None
+                    # the current database and schema are needed for the names the user wrote
+                    statement = expression if len(exploded) > 1 or isinstance(expression, sqlglot.exp.Show) else None
                     self._execute(transformed, params, statement)
                     for exp in exploded[1:]:
                         self._execute(self._transform(exp), params, statement)
